@@ -1,6 +1,7 @@
 package props
 
 import (
+	"io"
 	"bytes"
 	"fmt"
 	"strings"
@@ -16,6 +17,32 @@ import (
 type C08Case struct {
 	Cfg  L2Cfg
 	Hist []string // "w10","w0","wR","wT","wA","f","c"
+	// Sink: 0 a bare io.Writer; 1 also an io.ByteWriter; 2 a *bytes.Buffer
+	Sink int `json:",omitempty"`
+}
+
+// c08Sink gives uniform access to what has arrived in the sink.
+type c08Sink struct {
+	kind int
+	bare sinkByteBuf
+	buf  bytes.Buffer
+}
+
+func (s *c08Sink) writer() io.Writer {
+	switch s.kind {
+	case 1:
+		return &s.bare
+	case 2:
+		return &s.buf
+	}
+	return &s.bare.sinkBuf
+}
+
+func (s *c08Sink) bytes() []byte {
+	if s.kind == 2 {
+		return s.buf.Bytes()
+	}
+	return s.bare.b
 }
 
 func init() {
@@ -103,24 +130,25 @@ func c08History(r *core.Run, p C08Case) {
 	if bs := p.Cfg.BufSize; dcap+map[bool]int{true: 4096, false: bs}[bs == 0] < 1<<16 {
 		site += " dict+buf<64KiB"
 	}
-	desc := fmt.Sprintf("cfg=%+v history=%v", p.Cfg, p.Hist)
-	var sb sinkBuf
+	desc := fmt.Sprintf("cfg=%+v history=%v sink=%s", p.Cfg, p.Hist, []string{"bare io.Writer", "io.ByteWriter", "*bytes.Buffer"}[p.Sink])
+	snk := &c08Sink{kind: p.Sink}
+	sinkW := snk.writer()
 	var written []byte
 	closed := false
 	closeSink := 0
 	st := "open-empty"
 	fail := false
 	pan := core.Guard(func() {
-		w, err := p.Cfg.build().NewWriter2(&sb)
+		w, err := p.Cfg.open(sinkW)
 		if err != nil {
 			r.Violate(cs, site+" → constructor-fails", desc, errStr(err), "nil")
 			fail = true
 			return
 		}
 		check := func(what string, withEnd bool) {
-			data := sb.b
+			data := snk.bytes()
 			if withEnd {
-				data = append(append([]byte(nil), sb.b...), 0)
+				data = append(append([]byte(nil), snk.bytes()...), 0)
 			}
 			out, derr, proto, rp := lzma2Decode(data, dcap)
 			if rp != nil || proto != "" || errClass(derr) != "EOF" || !bytes.Equal(out, written) {
@@ -145,14 +173,14 @@ func c08History(r *core.Run, p C08Case) {
 			}
 		}
 		for i, op := range p.Hist {
-			before := len(sb.b)
+			before := len(snk.bytes())
 			prev := st
 			switch op {
 			case "f":
 				err := w.Flush()
 				if closed {
-					if err == nil || len(sb.b) != before {
-						r.Violate(cs, site+" → Flush-after-Close", desc, fmt.Sprintf("err=%s sink %d→%d", errStr(err), before, len(sb.b)), "error, nothing emitted")
+					if err == nil || len(snk.bytes()) != before {
+						r.Violate(cs, site+" → Flush-after-Close", desc, fmt.Sprintf("err=%s sink %d→%d", errStr(err), before, len(snk.bytes())), "error, nothing emitted")
 					}
 					break
 				}
@@ -161,16 +189,16 @@ func c08History(r *core.Run, p C08Case) {
 					fail = true
 					return
 				}
-				if st == "open-empty" && len(sb.b) != before {
-					r.Violate(cs, site+" → Flush-with-nothing-pending-emits", desc, fmt.Sprintf("sink %d→%d", before, len(sb.b)), "unchanged")
+				if st == "open-empty" && len(snk.bytes()) != before {
+					r.Violate(cs, site+" → Flush-with-nothing-pending-emits", desc, fmt.Sprintf("sink %d→%d", before, len(snk.bytes())), "unchanged")
 				}
 				check("flushed-prefix", true)
 				st = "open-empty"
 			case "c":
 				err := w.Close()
 				if closed {
-					if err == nil || len(sb.b) != before {
-						r.Violate(cs, site+" → Close-after-Close", desc, fmt.Sprintf("err=%s sink %d→%d", errStr(err), before, len(sb.b)), "error, nothing emitted")
+					if err == nil || len(snk.bytes()) != before {
+						r.Violate(cs, site+" → Close-after-Close", desc, fmt.Sprintf("err=%s sink %d→%d", errStr(err), before, len(snk.bytes())), "error, nothing emitted")
 					}
 					break
 				}
@@ -180,15 +208,15 @@ func c08History(r *core.Run, p C08Case) {
 					return
 				}
 				closed = true
-				closeSink = len(sb.b)
+				closeSink = len(snk.bytes())
 				check("closed-stream", false)
 				st = "closed"
 			default:
 				q := c08Payload(op, i)
 				n, err := w.Write(q)
 				if closed {
-					if err == nil || n != 0 || len(sb.b) != before {
-						r.Violate(cs, site+" → Write-after-Close", desc, fmt.Sprintf("n=%d err=%s sink %d→%d", n, errStr(err), before, len(sb.b)), "error, nothing emitted")
+					if err == nil || n != 0 || len(snk.bytes()) != before {
+						r.Violate(cs, site+" → Write-after-Close", desc, fmt.Sprintf("n=%d err=%s sink %d→%d", n, errStr(err), before, len(snk.bytes())), "error, nothing emitted")
 					}
 					break
 				}
@@ -215,14 +243,14 @@ func c08History(r *core.Run, p C08Case) {
 		r.Violate(cs, site+" → panic@"+pan.Site(), desc, pan.Value+" | "+pan.Stack, "no panic")
 	}
 	r.Trace(1)
-	r.Eval(core.Hash(sb.b, len(p.Hist)))
+	r.Eval(core.Hash(snk.bytes(), len(p.Hist)))
 	// non-trivial: distinct (final state, call-class history, chunk-kind sequence of the output)
 	hs := ""
 	for _, op := range p.Hist {
 		hs += opClass(op)[:1] + opClass(op)[len(opClass(op))-2:]
 	}
 	ks := ""
-	rr := ref.DecodeLZMA2(append(append([]byte(nil), sb.b...), 0), uint32(dcap), false)
+	rr := ref.DecodeLZMA2(append(append([]byte(nil), snk.bytes()...), 0), uint32(dcap), false)
 	for _, c := range rr.Chunks {
 		if len(ks) < 20 {
 			ks += fmt.Sprint(int(c.Kind))
@@ -252,7 +280,7 @@ func runC08(r *core.Run) {
 	if th {
 		depth = 5
 	}
-	r.Rule = fmt.Sprintf("all call sequences up to length %d over {Write(10 B), Write(empty), Write(70000 incompressible), Write(70000 text), Flush, Close} x {DictCap 4096+BufSize 273, DictCap 65536, default 8 MiB, DictCap+BufSize = 65536 / 67192 (length<=3)} x both matchers; thorough adds Write(2 MiB+5 run) at depth<=3; all sequences up to length 3 (thorough 4) over {Write(recurring long phrases), Write(noise with planted repeats), Write(text), Flush}; plus deviation-bounded (<=2) placement of Flush / empty Write / Close inside 12 small writes. Oracle: after every Flush sink+0x00 decodes (library Reader2 AND reference) to all data written; empty Flush emits nothing; after Close full decode with both; calls after Close fail and emit nothing. states = writer states {open-empty, open-pending, closed}; transitions = (state, call class) and chunk-automaton steps of the outputs", depth)
+	r.Rule = fmt.Sprintf("all call sequences up to length %d over {Write(10 B), Write(empty), Write(70000 incompressible), Write(70000 text), Flush, Close} x {DictCap 4096+BufSize 273, DictCap 65536, default 8 MiB, DictCap+BufSize = 65536 / 67192 (length<=3)} x both matchers; thorough adds Write(2 MiB+5 run) at depth<=3; all sequences up to length 3 (thorough 4) over {Write(recurring long phrases), Write(noise with planted repeats), Write(text), Flush}; a Write ending exactly on the 2 MiB chunk limit followed by Flush; the short, codec-pollution and exact-fill histories also on io.ByteWriter / *bytes.Buffer sinks and with the caller overwriting and reusing its configuration variable (incl. the Properties value behind the pointer) right after the constructor; plus deviation-bounded (<=2) placement of Flush / empty Write / Close inside 12 small writes. Oracle: after every Flush sink+0x00 decodes (library Reader2 AND reference) to all data written; empty Flush emits nothing; after Close full decode with both; calls after Close fail and emit nothing. states = writer states {open-empty, open-pending, closed}; transitions = (state, call class) and chunk-automaton steps of the outputs", depth)
 	alpha := []string{"w10", "w0", "wR", "wT", "f", "c"}
 	var cases []C08Case
 	cfgs := []L2Cfg{{DictCap: 4096, BufSize: 273}, {DictCap: 65536}, {DictCap: 4096, BufSize: 273, Matcher: 1}, {DictCap: 65536, Matcher: 1}}
@@ -367,6 +395,46 @@ func runC08(r *core.Run) {
 					c.Pre = &pre
 					cases = append(cases, C08Case{Cfg: c, Hist: []string{"wP", "f", "wT", "c"}}, C08Case{Cfg: c, Hist: []string{"w10", "wR", "c"}})
 				}
+			}
+		}
+	}
+	// a Write that ends exactly on the 2 MiB chunk limit (the chunk is completed inside Write), then
+	// Flush: nothing is pending any more, yet everything written must have reached the sink
+	{
+		full := fmt.Sprintf("wX:%d:run", 1<<21)
+		for _, c := range []L2Cfg{{DictCap: 65536}, {}} {
+			for _, h := range [][]string{{full, "f", "w10", "c"}, {full, full, "f", "c"}, {"w10", "f", full, "f", "c"}, {full, "c"}} {
+				for sk := 0; sk < 3; sk++ {
+					cases = append(cases, C08Case{Cfg: c, Hist: h, Sink: sk})
+				}
+			}
+		}
+	}
+	// other kinds of sink (an io.ByteWriter, a *bytes.Buffer) and a caller that reuses its configuration
+	// variable right after the constructor: the short histories of the first configuration, the
+	// codec-pollution and exact-fill families
+	{
+		base := cases
+		for _, c := range base {
+			if c.Sink != 0 || c.Cfg.Pre != nil {
+				continue
+			}
+			small := len(c.Hist) <= 3 && c.Cfg == (L2Cfg{DictCap: 4096, BufSize: 273})
+			polluted := len(c.Hist) > 0 && (c.Hist[0] == "wP" || c.Hist[0] == "wN" || strings.HasPrefix(c.Hist[0], "wX:"))
+			if !small && !polluted {
+				continue
+			}
+			for sk := 1; sk <= 2; sk++ {
+				q := c
+				q.Sink = sk
+				cases = append(cases, q)
+			}
+			q := c
+			q.Cfg.Scribble = true
+			cases = append(cases, q)
+			if !q.Cfg.Props {
+				q.Cfg.Props, q.Cfg.LC, q.Cfg.LP, q.Cfg.PB = true, 2, 1, 3
+				cases = append(cases, q)
 			}
 		}
 	}
